@@ -28,7 +28,8 @@ func newBaseStreamDataHandle() *baseStreamDataHandle {
 }
 
 func (s *baseStreamDataHandle) HasStreamData(data []byte) bool {
-	return bytes.Contains(data, []byte{0x30, 0x31, 0x63, 0x64}) // 808543076 = 0x30 0x31 0x63 0x64
+	// 只判断开头的帧标识 缓冲区后面(下一个码流包 或者808报文内容里)出现01cd 不代表当前数据是码流
+	return bytes.HasPrefix(data, []byte{0x30, 0x31, 0x63, 0x64}) // 808543076 = 0x30 0x31 0x63 0x64
 }
 
 func (s *baseStreamDataHandle) HasMinHeadLen(data []byte) bool {
